@@ -2,6 +2,7 @@ package tbin
 
 import (
 	"fmt"
+	"math"
 	"strings"
 )
 
@@ -155,17 +156,57 @@ func T3Small() []*Shape {
 
 // Gen builds position-distinct values: the i-th generated scalar of each kind differs from all others,
 // so returning a wrong neighbour is visible.
-type Gen struct{ n int }
+type Gen struct {
+	n int
+	// Boundary: non-key scalars rotate through boundary alphabets (extreme ints, special doubles,
+	// empty / SIMD-lane-sized / page-sized / non-UTF-8 strings) instead of the distinct counters.
+	Boundary bool
+	inKey    int
+}
 
 func (g *Gen) next() int { g.n++; return g.n }
 
+var (
+	bByte = []int8{-128, -1, 0, 127, 5}
+	bI16  = []int16{-32768, -1, 0, 32767, 256}
+	bI32  = []int32{-2147483648, -1, 0, 2147483647, 65536}
+	bI64  = []int64{-9223372036854775808, -1, 0, 9223372036854775807, 1<<53 + 1, -(1 << 31) - 1}
+	bF64  = []float64{math.Copysign(0, -1), math.NaN(), math.Inf(1), math.Inf(-1), 5e-324, math.MaxFloat64, 0.1, 1e21}
+	bStr  = []string{"", "a", strings.Repeat("b", 15), strings.Repeat("c", 16), strings.Repeat("d", 17), strings.Repeat("e", 31), strings.Repeat("f", 32), strings.Repeat("g", 33),
+		"\xff\xfe\x00", "\"\\\n\u2028é", strings.Repeat("h", 4095), strings.Repeat("i", 4096), strings.Repeat("j", 4097)}
+)
+
+func (g *Gen) boundary(s *Shape) *Val {
+	k := g.next()
+	switch s.T {
+	case BOOL:
+		return Bool(k%2 == 0)
+	case BYTE:
+		return Byte(bByte[k%len(bByte)])
+	case I16:
+		return I16v(bI16[k%len(bI16)])
+	case I32:
+		return I32v(bI32[k%len(bI32)])
+	case I64:
+		return I64v(bI64[k%len(bI64)])
+	case DOUBLE:
+		return Double(bF64[k%len(bF64)])
+	case STRING:
+		return Bin([]byte(bStr[k%len(bStr)]))
+	}
+	panic("not scalar")
+}
+
 // Build a value of shape s where every container has n elements and every struct has all fields present.
 func (g *Gen) Build(s *Shape, n int) *Val {
+	if g.Boundary && g.inKey == 0 && s.Depth() == 0 {
+		return g.boundary(s)
+	}
 	switch s.T {
 	case BOOL:
 		return Bool(g.next()%2 == 1)
 	case BYTE:
-		return Byte(int8(g.next()%120 + 1))
+		return Byte(int8(g.next()*37 + 1)) // distinct for 256 consecutive counters, covers values >= 128
 	case I16:
 		return I16v(int16(1000 + g.next()))
 	case I32:
@@ -190,7 +231,9 @@ func (g *Gen) Build(s *Shape, n int) *Val {
 	case MAP:
 		v := &Val{T: MAP, KT: s.Key.T, ET: s.Elem.T}
 		for i := 0; i < n; i++ {
+			g.inKey++
 			v.K = append(v.K, g.Build(s.Key, n))
+			g.inKey--
 			v.L = append(v.L, g.Build(s.Elem, n))
 		}
 		return v
